@@ -1,4 +1,45 @@
-(* placeholder *)
-From Coq Require Import ZArith.
-Theorem C20_placeholder : True. Proof. exact I. Qed.
-Print Assumptions C20_placeholder.
+(* C20 -- with -c every eligible instruction is compressed and nothing grows.  Statements only. *)
+From Coq Require Import ZArith List String.
+From BB Require Import Base.PyBase Gen.Encoders Gen.Criteria Spec.RV32 Spec.RVC Spec.Operands Spec.Legal
+  Model.Items Model.Encode Model.Passes Proofs.Layout Proofs.LayoutInst Proofs.Rules Proofs.RulesMain.
+Import ListNotations.
+Open Scope Z_scope.
+
+(* Completeness: for EVERY one of the 65 536 halfwords that is a legal non-hint non-reserved RV32C integer encoding,
+   the 32-bit instruction it expands to (written with canonical operands) is selected by some rule of the GENERATED
+   criteria table, in the generated order, and that rule re-encodes it legally with the same meaning
+   (in-kernel sweep of all halfwords). *)
+Theorem C20_complete :
+  forall h c, 0 <= h < 65536 -> decode16 h = Some c ->
+  exists v r, view_of_ops (fst (name_ops (expand_c c))) (snd (name_ops (expand_c c))) = Some v /\
+              select_num criteria v = Some r /\ rule_check v r = true.
+Proof. exact rules_complete_spec. Qed.
+Print Assumptions C20_complete.
+
+Theorem C20_complete_lui_second_spelling :
+  forall h rd imm, 0 <= h < 65536 -> decode16 h = Some (CLui rd imm) -> imm < 0 ->
+  exists v r, view_of_ops "lui" [rd; imm + 1048576] = Some v /\ select_num criteria v = Some r /\ rule_check v r = true.
+Proof. exact rules_complete_lui_alt. Qed.
+Print Assumptions C20_complete_lui_second_spelling.
+
+(* the numeric selection is what the generated selection computes on an item *)
+Theorem C20_selection_link : forall i r, select_rule criteria i = Ok r -> select_num criteria (nview_of i) = r.
+Proof. exact select_link. Qed.
+Print Assumptions C20_selection_link.
+
+(* Nothing grows, item by item: whatever the compression pass does with an item, the replacement is not larger
+   (4 -> 2 or unchanged, never the reverse) and contains no label; same for pseudo expansion and alignment. *)
+Theorem C20_compress_never_grows : forall consts, rule_ok (compress_rule consts).
+Proof. exact compress_rule_ok. Qed.
+Print Assumptions C20_compress_never_grows.
+Theorem C20_pseudo_never_grows : forall consts, rule_ok (pseudo_rule consts).
+Proof. exact pseudo_rule_ok. Qed.
+Print Assumptions C20_pseudo_never_grows.
+Theorem C20_align_never_grows : rule_ok align_rule.
+Proof. exact align_rule_ok. Qed.
+Print Assumptions C20_align_never_grows.
+(* NOT proved: the whole-program comparison |output with -c| <= |output without| and label-wise monotonicity (a two-run
+   simulation); that half of C20 is decided by the falsifier only -- see DESIGN.md. *)
+
+Example C20_example : select_num criteria ex_view = Some "c.addi"%string /\ wf_view ex_view /\ regs_ok ex_view.
+Proof. exact ex_view_selected. Qed.
